@@ -361,7 +361,12 @@ func minDepositOf(v *View, pricingText string) *big.Int {
 		base = new(big.Int)
 	}
 	m := new(big.Int).Mul(base, bi(v.Params.MinDepositMultiple))
-	md := v.Params.MinDeposit.AmountOf(denom).BigInt()
+	md := new(big.Int) // (a plain scan: Coins.AmountOf searches a sorted list, and whether the stored list is sorted is not ours to assume)
+	for _, c := range v.Params.MinDeposit {
+		if c.Denom == v.Params.BaseDenom {
+			md = c.Amount.BigInt()
+		}
+	}
 	if m.Cmp(md) < 0 {
 		return md
 	}
